@@ -553,6 +553,8 @@ def run(prog: Program) -> Results:
     from sa.rules import cursor
     cursor.check(prog, res, "R-C09-7", ("cli/manipulations.py",), 4)
     body_only_without_layers(prog, res)
+    from sa.rules.c11 import closer_scope_first
+    closer_scope_first(prog, res, rid="R-C09-13")  # the layer the selector addressed is consulted before the outermost let
     res.assumptions = ["contents of the other layers' text and name shadowing across layers are runtime data"]
     return res
 
